@@ -1,7 +1,7 @@
 """C26 — a TCP server keeps one live connection entry per peer address.
 
 Model:    lean/IofloModel/Model/Server.lean (Server / ServerTls: accept queue, .axes, .ixes, .cxes, removeIx, closeIx,
-          shutdownIx, TLS handshake move), version `fixed` = with fixes/D14-server-shutdownix-call.patch
+          shutdownIx, TLS handshake move), version `fixed2` = with fixes/D14-server-shutdownix-call.patch and fixes/D14b-servertls-shutdown-stale.patch
 Theorems: lean/IofloModel/Props/C26.lean
 Tie:      one history per case (arrivals with repeated peer addresses, accept / handshake / service calls, closes,
           shutdowns, removals) run on the real Server / ServerTls over a listen-socket double and socket doubles, and
@@ -11,12 +11,14 @@ Oracle:   (independent of the model) on the implementation's lines: one entry pe
           that address; accepting never raises for well-formed sockets; the entry is the latest accepted socket; a
           displaced entry's socket was shut down; a removed entry's socket was closed and the entry is gone.
 """
-import errno, ssl, itertools
+import errno, ssl, itertools, os
 from collections import deque
 import core
 from props import _wa_doubles as D
 
 EHA = 9                      # address id of the server itself
+# which version of the model the tree is compared with: "fixed" = D14 only, "fixed2" = D14 + D14b
+MODEL = os.environ.get("WA_C26_MODEL", "fixed2")
 
 
 def addr(n):
@@ -149,11 +151,9 @@ class CHECK(core.Check):
                "shutdown count / closed flag compared with the Lean driver `server` after every operation",
                "object identity of sockets is tracked through the identity of the tuple returned by getpeername()",
                "addresses are small integers in the model and distinct (host, port) tuples in the run"]
-    PARTIAL = ["C26_displaced_are_shut_partial: 'a displaced stale entry is shut down' is proved for Server; ServerTls "
-               "replaces a stale entry on handshake completion without shutdown (finding D14b, "
-               "C26_counterexample_tls_stale_not_shut)",
-               "model = repaired serviceAxes (fixes/D14-server-shutdownix-call.patch); on the unpatched tree a repeated peer "
-               "address is a VIOLATION (C26_D14_orig_raises)",
+    PARTIAL = ["model = repaired code (fixes/D14-server-shutdownix-call.patch, fixes/D14b-servertls-shutdown-stale.patch); on a "
+               "tree without them a repeated peer address is a VIOLATION (C26_D14_orig_raises, "
+               "C26_D14b_orig_tls_stale_not_shut)",
                "a failed TLS handshake leaves a socket-less IncomerTls in .cxes; every later serviceCxes raises "
                "AttributeError (modelled; outside this property)",
                "closeIx leaves the closed incomer in .ixes; serviceReceivesAllIx then raises AttributeError (modelled; "
@@ -163,9 +163,9 @@ class CHECK(core.Check):
     LEVEL_TEXT = ("Proved on the model for all histories, Server and ServerTls, both versions: C26_ixes_keys_unique, "
                   "C26_entries_match_peer, C26_no_shared_socket; step theorems C26_accept_replaces_stale (no raise, stale socket shut down, entry "
                   "replaced in place, others untouched), C26_accept_new, C26_malformed_refused, C26_remove_closes, "
-                  "C26_close_keeps_entry, C26_tls_handshake_moves; C26_displaced_are_shut_partial (Server: every socket ever "
-                  "entered is a live entry, shut, or released); as found: C26_D14_orig_raises; counterexample "
-                  "C26_counterexample_tls_stale_not_shut (D14b).")
+                  "C26_close_keeps_entry, C26_tls_handshake_moves; C26_displaced_are_shut (Server and ServerTls: every socket "
+                  "ever entered into .ixes/.cxes is a live entry, shut, or released); as found: C26_D14_orig_raises, "
+                  "C26_D14b_orig_tls_stale_not_shut. No _partial theorem.")
     LEVEL_NOTE = ("Trusted: Lean kernel; axioms propext, Quot.sound (Classical.choice if listed); transcription of serving.py "
                   "Server/ServerTls table code validated by the correspondence runs; the doubles; odict semantics as "
                   "transcribed. Not covered: real listen sockets, the TLS record layer, Peer class.")
@@ -218,7 +218,7 @@ class CHECK(core.Check):
 
     # ------------------------------------------------------------------ both sides
     def requests(self, case):
-        out = ["reset fixed %d %d" % (case["tls"], EHA)]
+        out = ["reset %s %d %d" % (MODEL, case["tls"], EHA)]
         for op in case["ops"]:
             out.append(" ".join(str(x) for x in op))
         peers = [op[1] for op in case["ops"] if op[0] == "arrive"]
@@ -260,7 +260,7 @@ class CHECK(core.Check):
             return "adapter: %d lines for %d ops: %s" % (len(out), len(ops), out[:2])
         peer_of, reported, sockname = {}, {}, {}
         nsock = 0
-        prev_ix, prev_socks, prev_ax, prev_pend = [], [], [], 0
+        prev_ix, prev_socks, prev_ax, prev_pend, prev_cx = [], [], [], 0, []
         for i, (op, line) in enumerate(zip(ops, out[1:])):
             if line.startswith("HARNESS-EXC"):
                 return "op %d %s: %s" % (i, op[0], line)
@@ -307,6 +307,15 @@ class CHECK(core.Check):
                         return "%s: entry for address %d vanished" % (what, ca)
                     if op[2] and not socks[sid][1]:
                         return "%s: removed entry's socket %d was not closed" % (what, sid)
+            # the same for a connection still handshaking in .cxes that a newer one from its address displaces
+            now_ix_sids = {e[1] for e in ix}
+            after_cx = {ca: sid for ca, sid, _, _ in cx}
+            for ca, sid, _, _ in prev_cx:
+                if sid not in now_ix_sids and after_cx.get(ca) != sid:
+                    sh, cl = socks[sid]
+                    if sh == 0 and not cl:
+                        return ("%s: pending handshake for address %d (socket %d) was replaced without being shut down"
+                                % (what, ca, sid))
             if op[0] == "remove":
                 if op[1] in after:
                     return "%s: entry still in the table" % what
@@ -315,7 +324,7 @@ class CHECK(core.Check):
             for sid, (sh, cl) in enumerate(socks):
                 if sid < len(prev_socks) and (sh < prev_socks[sid][0] or cl < prev_socks[sid][1]):
                     return "%s: socket %d record went backwards" % (what, sid)
-            prev_ix, prev_socks, prev_pend = ix, socks, pend
+            prev_ix, prev_socks, prev_pend, prev_cx = ix, socks, pend, cx
             prev_ax = [] if ax == "." else [int(e.split(":")[0]) for e in ax.split(",")]
         return None
 
